@@ -171,3 +171,16 @@ def resolve_local(fn, e, depth=3, only=None):
             return n
 
     return R(depth).visit(copy.deepcopy(e))
+
+
+def update_of(st):
+    """(target text, operator name, operand) of ``t op= e`` or of the spelled-out ``t = t op e`` (``t = e + t`` for +)."""
+    if isinstance(st, ast.AugAssign):
+        return unparse(st.target), type(st.op).__name__, st.value
+    if isinstance(st, ast.Assign) and len(st.targets) == 1 and isinstance(st.value, ast.BinOp):
+        t = unparse(st.targets[0])
+        if unparse(st.value.left) == t:
+            return t, type(st.value.op).__name__, st.value.right
+        if isinstance(st.value.op, (ast.Add, ast.Mult)) and unparse(st.value.right) == t:
+            return t, type(st.value.op).__name__, st.value.left
+    return None
